@@ -23,7 +23,10 @@ def evalf(e, env, tfvar=None, cache=None):
             stack.pop()
             continue
         if z3.is_rational_value(t):
-            cache[k] = t.numerator_as_long() / t.denominator_as_long()
+            try:
+                cache[k] = t.numerator_as_long() / t.denominator_as_long()
+            except OverflowError:
+                cache[k] = float('inf') if (t.numerator_as_long() > 0) == (t.denominator_as_long() > 0) else float('-inf')
             stack.pop()
             continue
         if z3.is_int_value(t):
